@@ -54,6 +54,7 @@ LINK_HEADER = ("\nFrom Bardic Require Import ParseBlocks ParseBlocksInst ParseAl
 ALARM_S = 5
 MAX_MODEL_LINE = 1500  # longer lines (only the pinned deep-nesting probes) are not sent to Coq: the model's string
                       # accumulators are quadratic
+MAX_MODEL_LINES = 2500 # inputs of more lines (the far-above-cap block-nesting probes) are not sent to Coq either
 MAX_TIMEOUTS = 4      # after that many hangs the remaining inputs are not compiled (each hang costs ALARM_S)
 
 
@@ -967,27 +968,43 @@ def depth_class(d, cap):
 
 
 def deep_inputs(rng, quick):
-    """[(family, lines)]: family = deep:<construct>:<position>:<host>:<depth class>:d<depth>."""
+    """[(family, lines)]: family = deep:<construct>:<position>:<host>:<depth class>:d<depth>.
+    thorough: the full product positions x hosts x depths.  quick: the full product positions x hosts at the depths
+    around the cap; the small and the far-above depths on drawn hosts, arranged so that every position meets the
+    far-above depths in several hosts and every host meets them through several positions (depth 3000 of the
+    inline conditional costs about a second per probe and is left to the thorough tier; quick goes to 600 and 1500)."""
     out = []
-    for pos in INLINE_POSITIONS:
-        for host, mk in INLINE_HOSTS.items():
-            for d in INLINE_DEPTHS:
+    hosts = list(INLINE_HOSTS)
+    rng.shuffle(hosts)
+    for pi, pos in enumerate(INLINE_POSITIONS):
+        for hi, host in enumerate(hosts):
+            mk = INLINE_HOSTS[host]
+            if not quick:
+                depths = INLINE_DEPTHS
+            else:
+                slot = (hi - 6 * pi) % len(hosts)          # 0..17, a different rotation of the hosts per position
+                depths = [49, 50, 51] + ([2, 60] if slot % 3 == 0 else []) + ([600] if slot < 4 else []) + \
+                    ([1500] if slot == 4 and pi % 3 == 0 else [])
+            for d in depths:
                 if pos == "both" and d > 600:
                     continue
                 out.append((f"deep:inline-conditional:{pos}:{host}:{depth_class(d, INLINE_CAP)}", mk(nest_inline(d, pos, rng))))
     for kind in BLOCK_KINDS:
         for form in BLOCK_FORMS:
             for host, mk in BLOCK_HOSTS.items():
-                for d in BLOCK_DEPTHS:
-                    for indent in ((False, True) if d <= 110 else (False,)):
-                        if host != "passage-body" and (form != "closed" and kind not in ("if-then", "for")):
-                            continue          # the other hosts: every kind closed, the two plain kinds in every form
+                if host != "passage-body" and (form != "closed" and kind not in ("if-then", "for")):
+                    continue              # the other hosts: every kind closed, the two plain kinds in every form
+                depths = BLOCK_DEPTHS if not quick else [2, 99, 100, 101, 110, 600] + ([3000] if rng.random() < 0.15 else [])
+                for d in depths:
+                    for indent in ((False, True) if d <= 110 and (not quick or rng.random() < 0.5) else (False,)):
                         out.append((f"deep:block:{kind}/{form}{'/indented' if indent else ''}:{host}:{depth_class(d, BLOCK_CAP)}",
                                     mk(nest_blocks(d, kind, form, indent))))
     # inline conditionals inside nested blocks: both recursions at once
     for pos in ("then", "else", "alternate"):
         for d_block in (3, 99, 100):
             for d_inline in (49, 50, 51, 600):
+                if quick and d_inline == 600 and d_block != 3:
+                    continue
                 body = nest_blocks(d_block, "if-for-alternate", "closed", False)
                 k = body.index("innermost {v}")
                 body[k] = nest_inline(d_inline, pos, rng)
@@ -995,7 +1012,7 @@ def deep_inputs(rng, quick):
                             [":: A"] + body))
     for kind, mk_e in PYEXPR_KINDS.items():
         for host, mk in PYEXPR_HOSTS.items():
-            for d in PYEXPR_DEPTHS:
+            for d in (PYEXPR_DEPTHS if not quick else [60, 600] + ([3000] if rng.random() < 0.25 else [])):
                 out.append((f"deep:python-expression:{kind}:{host}:d{d}", mk(mk_e(d))))
     for kind, mk in OTHER_NESTING.items():
         for d in (3, 60, 600, 3000):
@@ -1233,13 +1250,16 @@ def run(tier: str, seed: int) -> int:
         chk.count(("l", d["function"], d["input"]), True)
 
     # ---------------- inputs for (b), (c), (d) ----------------
-    inputs = []          # (family, lines)
+    inputs = []          # (family, lines, compare with the model)
     for name, text in pinned_inputs():
-        inputs.append(("pinned:" + name, text.split("\n")))
+        inputs.append(("pinned:" + name, text.split("\n"), True))
+    for fam, ls in deep_inputs(rng, quick):
+        inputs.append((fam, ls, True))
+    inputs += call_matrix(rng, quick)
     for _ in range(n_gen_plain):
-        inputs.append(("generated-plain", gen_story_lines(rng, blocks=False)))
+        inputs.append(("generated-plain", gen_story_lines(rng, blocks=False), True))
     for _ in range(n_gen_blocks):
-        inputs.append(("generated-blocks", gen_story_lines(rng, blocks=True)))
+        inputs.append(("generated-blocks", gen_story_lines(rng, blocks=True), True))
     files = repo_bard_files()
     n_files = 0
     for path in files:
@@ -1249,22 +1269,29 @@ def run(tier: str, seed: int) -> int:
         n_files += 1
         rel = os.path.relpath(path, C.REPO)
         base = text.split("\n")
-        inputs.append(("repo-file", base))
+        inputs.append(("repo-file", base, True))
         if not C.is_ascii(text):
-            inputs.append(("repo-file-ascii", to_ascii(text).split("\n")))
+            inputs.append(("repo-file-ascii", to_ascii(text).split("\n"), True))
         for _ in range(n_mut_per_file):
             src = base if rng.random() < 0.3 else to_ascii(text).split("\n")
             ls, ms = mutate(rng, src)
             for m in ms:
                 dist["mutations"][m] = dist["mutations"].get(m, 0) + 1
-            inputs.append(("repo-mutation", ls))
+            inputs.append(("repo-mutation", ls, True))
     dist["repo_files"] = n_files
 
     # ---------------- (c) totality oracle, (d) C12 validator, and the cases of (b) ----------------
     pterms, pmeta = [], []
-    skipped = {"block-construct": 0, "non-ascii": 0, "framework-or-legacy": 0, "outside-the-model": 0, "line-too-long-for-vm_compute": 0}
+    skipped = {"block-construct": 0, "non-ascii": 0, "framework-or-legacy": 0, "outside-the-model": 0, "line-too-long-for-vm_compute": 0,
+               "too-many-lines-for-vm_compute": 0, "call-shape-not-drawn-for-the-model": 0}
     n_timeouts = 0
-    for fam, ls in inputs:
+    deep_ev = {"probes": 0, "by_construct_and_position": {}, "by_host": {}, "by_depth_class": {}, "outcomes": {}}
+    call_ev = {"stories": 0, "by_parameters": {}, "by_shape": {}, "by_site": {}, "outcomes_by_shape": {}, "compared_with_model": 0}
+
+    def bump(d, k, n=1):
+        d[k] = d.get(k, 0) + n
+
+    for fam, ls, cmp_model in inputs:
         text = "\n".join(ls)
         ls = text.split("\n")                     # a generated line may itself contain a newline
         if n_timeouts >= MAX_TIMEOUTS:
@@ -1272,8 +1299,27 @@ def run(tier: str, seed: int) -> int:
             break
         oc, pr = compile_real(text)
         n_timeouts += oc[0] == "timeout"
-        dist["families"][fam] = dist["families"].get(fam, 0) + 1
         cls = oc[0] if oc[0] != "other" else "other:" + oc[1]
+        shape_tag = fam.split(":", 1)[1] if fam.startswith("pinned:") else None
+        if fam.startswith("deep:"):
+            _, construct, position, host, *dc = fam.split(":")
+            shape_tag = f"deep:{construct}:{position}:{host}"
+            deep_ev["probes"] += 1
+            bump(deep_ev["by_construct_and_position"], f"{construct}:{position}")
+            bump(deep_ev["by_host"], f"{construct}:{host}")
+            bump(deep_ev["by_depth_class"], f"{construct}:{dc[0] if len(dc) > 1 else dc[-1]}")
+            bump(deep_ev["outcomes"].setdefault(construct, {}), cls)
+            fam = "deep-nesting:" + construct
+        elif fam.startswith("call-shape:"):
+            _, cfg, shape, site = fam.split(":", 3)
+            shape_tag = f"call-shape:{cfg}:{shape}:{site}"
+            call_ev["stories"] += 1
+            bump(call_ev["by_parameters"], cfg)
+            bump(call_ev["by_shape"], shape)
+            bump(call_ev["by_site"], site)
+            bump(call_ev["outcomes_by_shape"].setdefault(shape, {}), cls)
+            fam = "call-shape-matrix"
+        dist["families"][fam] = dist["families"].get(fam, 0) + 1
         dist["outcomes"][cls] = dist["outcomes"].get(cls, 0) + 1
         in_p = False
         for l in ls:
@@ -1283,7 +1329,8 @@ def run(tier: str, seed: int) -> int:
         for u in pr.used:
             dist["constructs_used"][u] = dist["constructs_used"].get(u, 0) + 1
         replay = {"kind": "compile", "family": fam, "source": text if len(text) < 4000 else text[:1500] + " ...[" + str(len(text)) + " chars]... " + text[-500:]}
-        shape_tag = fam.split(":", 1)[1] if fam.startswith("pinned:") else None
+        if shape_tag and not fam.startswith("pinned:"):
+            replay["case"] = shape_tag
         if oc[0] == "timeout":
             chk.report(f"timeout:{shape_tag or fam}", f"compile_string did not return within {ALARM_S}s", replay)
         elif oc[0] == "other":
@@ -1310,6 +1357,13 @@ def run(tier: str, seed: int) -> int:
         if max(len(l) for l in ls) > MAX_MODEL_LINE:
             skipped["line-too-long-for-vm_compute"] += 1
             continue
+        if len(ls) > MAX_MODEL_LINES:
+            skipped["too-many-lines-for-vm_compute"] += 1
+            continue
+        if not cmp_model:
+            skipped["call-shape-not-drawn-for-the-model"] += 1
+            continue
+        call_ev["compared_with_model"] += fam == "call-shape-matrix"
         if oc[0] == "timeout" or (oc[0] == "other" and oc[1] == "RecursionError") or pr.oracle_escapes:
             skipped["outside-the-model"] += 1     # reported above; stack depth and hangs are not outcomes of the model
             continue
@@ -1318,7 +1372,7 @@ def run(tier: str, seed: int) -> int:
         except S.Unsupported:
             skipped["framework-or-legacy"] += 1
             continue
-        pmeta.append({"family": fam, "source": text, "implementation": cls})
+        pmeta.append({"family": fam, "source": text, "implementation": cls, **({"case": shape_tag} if shape_tag else {})})
     if LINK_BLOCKS:
         bad, shown, log = C.run_coq_cases(chk.scratch, HEADER + LINK_HEADER, pterms, "pcase", "pcase_bad_l",
                                           show_fn="pcase_show_l", shard=120)
@@ -1339,6 +1393,18 @@ def run(tier: str, seed: int) -> int:
     chk.cov["disagreements_found"] = n_dis + b_cov.get("disagreements_found", 0)
     chk.cov["rule"] = ("line cases: one per (function, distinct line). whole inputs: distinct by source text; non-trivial = the "
                        "real compiler accepted it with at least one passage")
+    dist["deep_nesting"] = dict(deep_ev, caps={"inline conditionals": INLINE_CAP, "blocks": BLOCK_CAP}, family=(
+        "every recursive construct through every recursive position in every host: inline conditionals (then / else / "
+        "alternating / both sides / among text / empty sides) in content lines, glue lines, choice texts, @if/@elif/@else/"
+        "@for bodies, join blocks; @if/@elif/@else/@for/<<if>>/<<for>> nesting (closed, unclosed, half closed; flush left and "
+        "indented) in a passage body, first in a passage, in a join block, before the first passage; both at once; Python "
+        "expression nesting (13 kinds) in 17 hosts; braces, brackets, multi-line statements, join sections, tags; depths "
+        "below / at / above the caps and far above (600, 1500, 3000)"))
+    dist["call_shapes"] = dict(call_ev, family=(
+        "target with 0..3 parameters (10 signatures, with and without defaults) x argument shapes (no parentheses, empty, "
+        "1..n+2 positional, keywords: all / reversed / partial / unknown / repeated / clashing with a positional / before a "
+        "positional, *args, **kwargs, 20 malformed texts) x 18 call sites (choice, jump, in @if/@elif/@else/@for/<<if>>, "
+        "nested two deep, in and beside a join block) in an otherwise valid story; plus calls to @join"))
     dist["whole_parse_cases_compared"] = len(pterms)
     dist["whole_parse_cases_skipped"] = skipped
     chk.notes["input_distribution"] = dist
